@@ -497,14 +497,59 @@ func (r *c02Run) amount() *big.Int {
 	return kernBig(c02Amounts[rng.Intn(len(c02Amounts))])
 }
 
+// assocCycle: a staker holding positions in SEVERAL assets with the operator it is associated with, then the
+// association is dropped (and sometimes re-established): OperatorShare must follow in every pool of that operator.
+func (r *c02Run) assocCycle(st []byte, op sdk.AccAddress) {
+	u, rng := r.u, r.u.rng
+	sid := c02StakerID(c02Chain, st)
+	if cur, err := u.env.App.DelegationKeeper.GetAssociatedOperator(r.ctx, sid); err == nil && cur != "" {
+		if acc, err := sdk.AccAddressFromBech32(cur); err == nil {
+			op = acc
+		}
+	}
+	order := rng.Perm(len(u.assets))
+	for _, i := range order {
+		as := u.assets[i]
+		if rng.Intn(5) == 0 && r.position(st, as, op).Sign() > 0 {
+			continue
+		}
+		amt := r.amount()
+		if free := r.withdrawable(st, as); free.Cmp(amt) < 0 {
+			r.deposit(st, as, new(big.Int).Sub(amt, free))
+		}
+		r.delegate(st, as, op, amt)
+	}
+	if rng.Intn(3) == 0 { // a position with another operator too: must not be touched
+		other := u.ops[rng.Intn(len(u.ops))]
+		as := u.assets[rng.Intn(len(u.assets))]
+		amt := big.NewInt(int64(1 + rng.Intn(1000)))
+		if free := r.withdrawable(st, as); free.Cmp(amt) < 0 {
+			r.deposit(st, as, new(big.Int).Sub(amt, free))
+		}
+		r.delegate(st, as, other, amt)
+	}
+	r.associate(c02Chain, st, op) // rejected when already associated
+	if rng.Intn(3) == 0 {
+		r.undelegate(st, u.assets[rng.Intn(len(u.assets))], op, big.NewInt(int64(1+rng.Intn(50))))
+	}
+	r.dissociate(c02Chain, st)
+	if rng.Intn(2) == 0 {
+		r.associate(c02Chain, st, u.ops[rng.Intn(len(u.ops))])
+	}
+}
+
 func (r *c02Run) randomOp() {
 	u, rng := r.u, r.u.rng
 	st := u.stakers[rng.Intn(len(u.stakers))]
 	as := u.assets[rng.Intn(len(u.assets))]
-	if rng.Intn(3) > 0 {
+	if rng.Intn(2) == 0 {
 		as = u.assets[0]
 	}
 	op := u.ops[rng.Intn(len(u.ops))]
+	if rng.Intn(11) == 0 {
+		r.assocCycle(st, op)
+		return
+	}
 	switch k := rng.Intn(100); {
 	case k < 14:
 		r.deposit(st, as, r.amount())
